@@ -27,6 +27,10 @@
 #include <cassert>
 #include <iosfwd>
 #include <algorithm>
+#if defined(XALAN_C_VERIF_HOOKS)
+#include <utility>
+#include <vector>
+#endif
 
 
 
@@ -1118,6 +1122,13 @@ public:
 
         XalanDocumentBuilder* const m_documentBuilder;
     };
+
+#if defined(XALAN_C_VERIF_HOOKS)
+#define XALAN_C_VERIF_HAS_STACKSIZES 1
+    // verification hook (add-only): (name, size) of the execution context's internal stacks
+    void
+    verifStackSizes(std::vector<std::pair<const char*, long> >&     theSizes) const;
+#endif
 
 protected:
 
